@@ -282,6 +282,8 @@ class Gen:
         add("smul", "arith", 2)
         add("sdiv", "arith")
         add("cond", "cond")
+        if shape == () and not free:
+            add("guarded", "guarded", 2)
         if shape == () and (not free or "absfree" in O):
             add("abs", "abs")
         if self.p.cplx:
@@ -396,6 +398,20 @@ class Gen:
                 c2 = [self.pick(["lt", "gt"]), e((), (), 0), e((), (), 0)]
                 c = [self.pick(["and", "or"]), c, c2] if self.chance(2, 3) else ["not", c]
             return ["cond", c, e(shape, free, d), e(shape, free, d)]
+        if op == "guarded":
+            # a partial function guarded by a conditional: the branch that is not selected is undefined there
+            a = e((), (), d)
+            alt = e((), (), min(d, 1))
+            k = self.pick(["sqrt", "ln", "recip", "pow", "acos"])
+            if k == "sqrt":
+                return ["cond", ["gt", a, ["lit", 0]], ["fn", "sqrt", a], alt]
+            if k == "ln":
+                return ["cond", ["le", a, ["lit", 0]], alt, ["fn", "ln", a]]
+            if k == "recip":
+                return ["cond", ["gt", ["abs", a], ["lit", 0.05]], ["div", alt, a], ["lit", 1]]
+            if k == "pow":
+                return ["cond", ["gt", a, ["lit", 0]], ["pow", a, ["lit", self.pick([0.5, 1.5, -0.5])]], alt]
+            return ["cond", ["lt", ["abs", a], ["lit", 1]], ["fn", "acos", a], alt]
         if op == "abs":
             return ["abs", e(shape, free, d)]
         if op in ("conj", "real", "imag"):
